@@ -19,6 +19,7 @@ import os
 import re
 import vlib
 import gen_data_writers
+import gen_c14_synth
 
 LEVEL = "proof"
 MANIFEST = dict(
@@ -68,6 +69,16 @@ REQUIRED = [NS + n for n in ("C15_restore", "C15_patch_frame", "C15_reset_frame"
                              "C15_invloop_off_silent", "C15_invloop_target_coherent", "C15_invloop_fields_wide", "C15_invloop_c_refines", "C15_invloop_c_inv",
                              "C15_invloop_in_loop_c", "C15_invloop_c_run", "C15_patch_index_fields_wide", "C15_no_local_static", "C15_invloop_unlooped_silent", "C15_skeleton_voice", "C15_skeleton_kernel_view", "C15_skeleton", "C15_writers",
                              "C15_writers_nonvacuous")]
+
+
+def synth_modules(ck):
+    """generated modules for formats with special voice handling (read-only reuse of the C14 generators): Oktalyzer
+    split channel pairs (one-shot exit of the voice loop on looped samples), IT new-note actions with many background
+    voices, voice slots changing owner, S3M/MOD with random effects; all carry looped samples"""
+    d = os.path.join(vlib.OUT, "c15synth")
+    g = gen_c14_synth
+    return (g.okt_modules(d, ck.seed) + g.okt_modules(d, ck.seed + 1000) + g.nna_modules(d, ck.seed) +
+            g.reuse_modules(d, ck.seed) + g.generate(d, ck.seed, 2))
 
 
 def corpus(ck, n, want_mod=4):
@@ -306,7 +317,11 @@ def check_inv(ck, inv_lines, stats):
             if fired.get((case["case_seed"], f[1], f[8]), 0) == 1 and not (f[NF] == "1" and f[OFF] == idx):
                 ck.unproved("correspondence Wrap.invloopStep vs update_invloop (stored index)",
                             "case %s\n%s\nmodel stores at %s, real flipped %s byte(s), first at %s" % (case["line"], l, idx, f[NF], f[OFF]))
-            if not coh:
+            if not coh and int(f[13]) & 2:
+                # voice and channel disagree, but the channel's sample is one of its current instrument's: the stale
+                # pending swap of libxmp_mixer_queuepatch (reported separately; the effect acts on the channel's choice)
+                stats["inv_stores_voice_on_other_sample"] += 1
+            elif not coh:
                 # the channel wrote into a sample its voice neither plays nor has queued (C15_invloop_target_coherent's
                 # invariant does not hold on the real state); the oracle reports the flipped byte as a violation
                 stats["inv_incoherent_stores"] += 1
@@ -389,6 +404,9 @@ def run(ck):
     wexe = vlib.build_harness("c15_wrap", ["c15_wrap.c"])
     do_wrap(ck, wexe, 16, 1500 if quick else 60000, stats)
     mods = corpus(ck, 28 if quick else 220, want_mod=4 if quick else 30)
+    smods = synth_modules(ck)
+    ck.note("synthetic_special_voice_modules", len(smods))
+    mods = smods + mods
     do_skel(ck, wexe, mods, 16, 50 if quick else 400, 60000 if quick else 120000, stats)
     # 4. direct oracle
     dexe = vlib.build_harness("c15_digest", ["c15_digest.c"])
@@ -404,6 +422,8 @@ def run(ck):
             ck.rng.shuffle(lst)
             for k, j in enumerate(range(off, len(dmods), 3)):
                 dmods[j] = lst[k % len(lst)]
+    for k, j in enumerate(range(2, len(dmods), 6)):
+        dmods[j] = smods[k % len(smods)]
     do_digest(ck, dexe, dmods, 16, 24 if quick else 200, 150 if quick else 500, stats,
               nlong=6 if quick else 32, nticks=48000 if quick else 140000)
     for k, v in sorted(stats.items()):
